@@ -153,6 +153,8 @@ pub enum K {
     Recv { ch: usize },
     TryRecv { ch: usize },
     DropRx { ch: usize },
+    /// `mem::forget` the receiver (queued messages are then leaked)
+    ForgetRx { ch: usize },
     // ---- arc (handle slots)
     ArcNew { h: usize, arc: usize },
     ArcClone { from: usize, to: usize },
@@ -393,6 +395,7 @@ pub fn op_text(op: &Op) -> String {
         K::Recv { ch } => write!(s, "recv ch{}", ch),
         K::TryRecv { ch } => write!(s, "tryrecv ch{}", ch),
         K::DropRx { ch } => write!(s, "droprx ch{}", ch),
+        K::ForgetRx { ch } => write!(s, "forgetrx ch{}", ch),
         K::ArcNew { h, arc } => write!(s, "h{}=arc_new A{}", h, arc),
         K::ArcClone { from, to } => write!(s, "h{}=clone h{}", to, from),
         K::ArcDrop { h } => write!(s, "drop h{}", h),
